@@ -1630,9 +1630,13 @@ def Mandatory(cls, **_kwargs):
     if issubclass(cls, Unicode):
         kwargs.update(dict(min_len=1))
 
-    elif issubclass(cls, Array):
-        (k,v), = cls._type_info.items()
-        if v.Attributes.min_occurs == 0:
-            cls._type_info[k] = Mandatory(v)
+    retval = cls.customize(**kwargs)
 
-    return cls.customize(**kwargs)
+    if issubclass(cls, Array):
+        # customize() hands the new class its own copy of _type_info, so it's
+        # the copy that gets the mandatory member, not the array passed in.
+        (k,v), = retval._type_info.items()
+        if v.Attributes.min_occurs == 0:
+            retval._type_info[k] = Mandatory(v)
+
+    return retval
